@@ -167,7 +167,8 @@ class SensitiveWordAnonymizer(object):
             words = [
                 (
                     w
-                    if w in self.conflicting_words
+                    # Reserved words were lower-cased above, so compare case-insensitively
+                    if w.lower() in self.conflicting_words
                     else self.sens_regex.sub(self._lookup_anon_word, w)
                 )
                 for w in words
